@@ -64,7 +64,8 @@ type caseC03 struct {
 	ModelGob string    `json:"model_gob"`
 	Model    string    `json:"model"`
 	Style    styleJSON `json:"style"`
-	Frame    Hex       `json:"frame,omitempty"` // informative; rebuilt from model+style on replay
+	Frame    Hex       `json:"frame,omitempty"`   // informative; rebuilt from model+style on replay
+	Prelude  []preOp   `json:"prelude,omitempty"` // unrelated decodes made before (state leaking between packets)
 }
 
 // genSpecValid draws an abstract packet every encoding of which is a valid frame.
@@ -73,6 +74,9 @@ func genSpecValid(t *rapid.T, typ uint8) model.Packet {
 	m := gen.Packet(t, typ, o)
 	if typ == model.DISCONNECT {
 		gen.DisconnectProps(t, &m, o)
+	}
+	if rapid.IntRange(0, 24).Draw(t, "steerproplen") == 0 {
+		steerPropertyLength(&m, rapid.SampledFrom(propLenTargets).Draw(t, "proplentarget"))
 	}
 	return m
 }
@@ -93,7 +97,8 @@ func ownEncoding(m *model.Packet) []byte {
 	return out
 }
 
-func checkC03(m model.Packet, st styleJSON) (frame []byte, sig, msg string, harness bool) {
+func checkC03(m model.Packet, st styleJSON, prelude ...preOp) (frame []byte, sig, msg string, harness bool) {
+	runPrelude(prelude)
 	frame, _ = ref.Encode(&m, st.style())
 	// self-check of the trusted base: the reference decoder must read back
 	// the model from the reference encoder's frame.
@@ -144,7 +149,7 @@ func TestC03(t *testing.T) {
 		if err != nil {
 			t.Fatalf("replay %s: %v", rf.Source, err)
 		}
-		frame, _, msg, _ := checkC03(m, c.Style)
+		frame, _, msg, _ := checkC03(m, c.Style, c.Prelude...)
 		r.Case(vf.FP(frame), true, "replay/"+typeName(m.Type), func() interface{} { return c.Model })
 		if msg != "" {
 			r.FailReplay(rf, "%s", msg)
@@ -164,7 +169,8 @@ func TestC03(t *testing.T) {
 		r.Rapid(t, typeName(typ), n, func(t *rapid.T) {
 			m := genSpecValid(t, typ)
 			st := drawStyle(t)
-			frame, sig, msg, harness := checkC03(m, st)
+			prelude := drawPrelude(t)
+			frame, sig, msg, harness := checkC03(m, st, prelude...)
 			own := ownEncoding(&m)
 			foreign := !bytes.Equal(own, frame)
 			class := typeName(typ) + "/own-form"
@@ -206,7 +212,7 @@ func TestC03(t *testing.T) {
 				if harness {
 					kind = "harness"
 				}
-				r.Fail(kind, caseC03{ModelGob: packModel(m), Model: m.String(), Style: st, Frame: frame}, sig, "%s\nmodel: %s", msg, m.String())
+				r.Fail(kind, caseC03{ModelGob: packModel(m), Model: m.String(), Style: st, Frame: frame, Prelude: prelude}, sig, "%s\nmodel: %s", msg, m.String())
 				t.Fatalf("%s", msg)
 			}
 		})
